@@ -207,7 +207,7 @@ class Sim(object):
         self.schedule_pos = 0
         self.schedule_out = []
         self.switch_prob = switch_prob
-        self.faults = faults or {}          # {(task, op): {k: kind}}
+        self.faults = faults if faults is not None else {}   # {(task, op): {k: kind}}
         self.events = []
         self.n_events = 0
         self.eval_total = 0
